@@ -74,6 +74,43 @@ def replay(args, outdir):
                 what='HandleLimiter %s for writes=%r k=%r maxHandles=%r pruneEvery=%r' % (clause, writes, k, a['maxh'], a['prune']))
 
 
+def replay_after_failure(args, outdir):
+    """real gzip files; one transient open() failure injected through the gate; the caller keeps writing after an error"""
+    a = args['cex']
+    writes = [a['w0'], a['w1'], a['w2'], a['w3']][:a['n']]
+    d = tempfile.mkdtemp(prefix='c19f', dir=os.environ.get('VERIF_SCRATCH') or None)
+    gate = _Gate(None, a['t'], None)
+    real_gzip = HLmod.gzip
+    clause = None
+    try:
+        HLmod.gzip = gate
+        errors = []
+        hl, expected, exc, failed_at = S.run_writes(lambda: HandleLimiter(maxHandles=a['maxh'], pruneEvery=a['prune']), writes, 1, prefix=d + '/',
+                                                    keep_going=True, errors=errors)
+        for i, e in errors:
+            if not isinstance(e, OSError):
+                clause = 'raised_without_open_failure:' + type(e).__name__
+        if clause is None and len(errors) > 1:
+            clause = 'more_than_one_write_failed'
+        if clause is None and errors and (not gate.failed_live or gate.failed_live[-1] != 0):
+            clause = 'raised_with_others_open'
+        if clause is None:
+            for p in S.PATHS:
+                fp = d + '/' + p
+                got = gzip.open(fp, 'rt').read() if os.path.exists(fp) else ''
+                if got != expected.get(fp, ''):
+                    clause = 'content'
+        if clause is None and gate.live != 0:
+            clause = 'descriptors_leaked'
+    finally:
+        HLmod.gzip = real_gzip
+        shutil.rmtree(d, ignore_errors=True)
+    if clause is None:
+        return dict(reproduced=False)
+    return dict(reproduced=True, signature='L1c_writes_after_a_failed_open:%s' % clause,
+                what='HandleLimiter %s for writes=%r transient failure at open call %r maxHandles=%r pruneEvery=%r' % (clause, writes, a['t'], a['maxh'], a['prune']))
+
+
 def replay_fh(args, outdir):
     from singlecellmultiomics.fastqProcessing.fastqHandle import FastqHandle
     a = args['cex']
